@@ -7,7 +7,7 @@ props = [json.loads(l) for l in open(os.path.join(V, 'properties.jsonl'))]
 # id -> (level category, technique, level text, level note, design ref)
 CLAIMED = {
  'C17': ('exploration', 'stateful property-based testing of the real TuiApp and renderer on a ratatui TestBackend',
-         'Generated operation sequences (all 36 bindable commands dispatched per mode as run_app does, synthetic rounds applied to 1..3 real Tracers, clears, resizes 1x1..300x100, all display modes and column sets) with one loop iteration (snapshot, clamp, order flows, draw) after every operation under catch_unwind; the selected hop / hop address / flow / trace / settings tab must exist in the displayed data. A stuck-case monitor turns a frame that never returns into exit 2; one recorded finding (ratatui layout solver spinning with 13+ columns) is demonstrated in a child process under a time limit.',
+         'Generated operation sequences (all 36 bindable commands dispatched per mode as run_app does, synthetic rounds applied to 1..3 real Tracers, clears, resizes 1x1..300x100, all display modes and column sets) with one loop iteration (snapshot, clamp, order flows, draw) after every operation under catch_unwind; the selected hop / hop address / flow / trace / settings tab must exist in the displayed data. Three generators (uniform commands, navigation-heavy on many flows, settings dialog with long item runs). One recorded finding (ratatui/cassowary layout solver cycling without end on the hop table, seen with 12+ columns) is turned into a panic by a vendored cassowary with a pivot cap, keyed on its call site, tolerated inside the search and demonstrated deterministically with fixed hash seeds (getrandom interposer); any other frame that does not return within 90 s ends the run with exit 2.',
          'run_app is parsed from frontend.rs and interpreted (tui_loop.rs), commands injected at the binding level; names / AS / GeoIP come from seeded fixtures.', 'DESIGN.md 3/C17'),
  'C18': ('exploration', 'stateful property-based testing with a screen-content oracle over every drawn frame',
          'The C17 driver with every hop address carrying a seeded host name, AS record and GeoIP record: after every frame each row of the TestBackend buffer is searched for every identifying string of every responding hop at or below the privacy ttl (all flows of the displayed data) and for the source address; on large terminals showing the plain table every visible responding hop must be present; the expand / contract keys are checked against the off <-> 0 .. hop-count step model.',
